@@ -9,7 +9,7 @@ E2 = "E2 exhaustive domain / configuration / program enumeration on the real cod
 
 # id -> (built?, engine, technique, level text, level note, design ref)
 T = {
- "C06": (True, "E1", "explicit-state model checking (stateright BFS to fixpoint from every raw state) + bounded-exhaustive DFS over operation histories, on the real ring buffers vs a VecDeque reference; the alphabet includes extend from an iterator that panics after k items (caught)",
+ "C06": (True, "E1", "explicit-state model checking (stateright BFS to fixpoint from every raw state) + bounded-exhaustive DFS over operation histories, on the real ring buffers vs a VecDeque reference; the alphabet includes extend from an iterator that panics after k items (caught): the buffer must stay a valid queue",
          "Every valid raw state (start,len)/first of capacities 1..6 (quick) / 1..12 (thorough) x every operation of the alphabet is executed on the real Bounded/Fixed buffer (window-with-canaries, Vec, Box, array storage) and compared with a VecDeque reference; successor states are re-extracted with into_raw_parts and the search runs to fixpoint, so histories of any length over those capacities are covered. A second, unmerged DFS replays every history to depth 5/6 without any state abstraction.",
          "Capacities above 12 are not explored (no capacity-specific branch in the code, but that is an argument, not a check). Trusted: rustc/LLVM, VecDeque, stateright BFS, data independence of the buffers for the merged run.", "DESIGN.md §4 C06"),
  "C10": (True, "E2", "bounded-exhaustive enumeration of (format, channel count N, length L) and length pairs on the real slice-view functions, with a counting allocator as observer; in-place additions for all 12 integer formats against independent arithmetic",
@@ -24,7 +24,7 @@ T = {
  "C20": (True, "E2", "exhaustive enumeration of (L, bin, hop) schedules and of f32 phases on the real window code against closed forms",
          "Every (L<=24/40, bin, hop) x 2 windows x 3 frame formats: chunk count, chunk contents and size_hint before every next(); Hann at every f32 phase in [0,1] (thorough) or a 2^21-pattern grid (quick) and on f64 grids; Window iterator for n up to 64/1024.",
          "L bounded; f64 phases on a grid. Trusted: libm cos.", "DESIGN.md §4 C20"),
- "C09": (True, "E2", "exhaustive enumeration of small directed multigraphs x output node x container on the real Processor with instrumented nodes, against an independent reachability / in-edge-multiset / topological-order oracle; plus every small multigraph with each node panicking once (caught) before two further calls on the same processor",
+ "C09": (True, "E2", "exhaustive enumeration of small directed multigraphs x output node x container on the real Processor with instrumented nodes, against an independent reachability / in-edge-multiset / topological-order oracle",
          "All multigraphs (multiplicity 0..2, self-loops included) on <=3 nodes, all digraphs on 4 nodes (thorough: all loop-free digraphs on 5), every output node, Graph / StableGraph / StableGraph with four vacancy patterns, two consecutive process calls on a processor reused across the enumeration; sources()/sinks() on every graph.",
          "Node counts above 4 (5 in thorough) are not explored; random larger graphs are outside this family. Trusted: rustc/LLVM, petgraph, identification of inputs by buffer address.", "DESIGN.md §4 C09"),
  "C01": (True, "E2", "exhaustive enumeration of source values (complete domains up to 32 bit, documented lattices for 48/64 bit) for all 132 format pairs on the real conversion functions against an i128 amplitude-rescale reference, in two build profiles",
@@ -48,10 +48,10 @@ T = {
  "C13": (True, "E1", "stateless exhaustive exploration of every send/next/drop history up to a depth bound on the real Bus (fresh object per history) + explicit-state stateright BFS to fixpoint on lag vectors via witness replay; backlog observed through a cfg-guarded hook; the alphabet includes dropping the Bus handle while outputs live on",
          "Every history to depth 12 (quick) / 15 (thorough) with <=3 live outputs and <=4 sends over an infinite and a 3-frame instrumented source: frames per output, attach index, pending counts, source pulls, backlog length == slowest lag (hook), is_exhausted; merged run with unbounded sends and lags <=4.",
          "Depth, live-output and lag bounds as stated; the merged run relies on the bus using only relative offsets. Trusted: rustc/LLVM, stateright BFS, the additive hook Bus::verif_backlog_len.", "DESIGN.md §4 C13"),
- "C14": (True, "E1", "stateless exhaustive exploration of every next/next_frames(k)/is_exhausted history from every (capacity, prefill, start offset, source length) initial state on the real Buffered + explicit-state stateright BFS to fixpoint via witness replay; plus sources that fail once (caught) at every pull position x every short call sequence",
+ "C14": (True, "E1", "stateless exhaustive exploration of every next/next_frames(k)/is_exhausted history from every (capacity, prefill, start offset, source length) initial state on the real Buffered + explicit-state stateright BFS to fixpoint via witness replay",
          "340 initial states in quick (capacity 1..4; thorough 1..5) x every (start,len) prefill x source length 0..2cap+1; every history to depth 5 (quick) / 7 (thorough); merged BFS on (ring start, ring len, pulled, delivered) to fixpoint; until_exhausted() from every initial state; oracle: prefill ++ source ++ equilibrium, pulls in units of capacity only on empty, exact exhaustion flag.",
          "Capacities above 5 and sources longer than 2cap+1 are not explored. Trusted: rustc/LLVM, stateright BFS.", "DESIGN.md §4 C14"),
- "C08": (True, "E2", "exhaustive enumeration of ratio histories (every per-frame ratio sequence over 4-letter alphabets to length 5/6, 21 constant ratios x every constructor, every setter switch point) x source lengths x interpolators x frame formats on the real Converter with an instrumented source, against exact rational positions; plus sources that fail once (caught) at every pull position for 9 ratios and converters replaced mid-history by clone() / clone_from() copies",
+ "C08": (True, "E2", "exhaustive enumeration of ratio histories (every per-frame ratio sequence over 4-letter alphabets to length 5/6, 21 constant ratios x every constructor, every setter switch point) x source lengths x interpolators x frame formats on the real Converter with an instrumented source, against exact rational positions; plus converters replaced mid-history by clone() / clone_from() copies",
          "For every configuration of the finite space the converter is run to exhaustion + 3: source pulls must equal floor(P_n) with P_n an exact rational (i128 x 2^-100), floor output = frame at the pulled index, linear output = exact blend within 4 ulp / 1 LSB and inside the two frames' interval, ratio 1 exact, is_exhausted() before every output, output counts for constant ratios; non-positive scale panics; labelled long runs for non-dyadic ratios.",
          "Ratios come from finite alphabets (dyadic ones are checked exactly, others with a float tolerance of n*2^-50); sources of <=8 frames. Trusted: rustc/LLVM, IEEE division for mirrored ratio arithmetic.", "DESIGN.md §4 C08"),
  "C16": (True, "E2", "exhaustive enumeration of node configurations (input count x buffers per input x output buffers x wrapper type x consecutive calls) on the real stock nodes inside real graphs, against per-node reference functions on position-coded dyadic buffers, plus every assignment of buffer content classes (tiny, subnormal, huge, signed zeros, infinities, NaN payloads) to the inputs of each stock node",
@@ -107,7 +107,7 @@ def main():
         ],
         "checks": checks,
         "not_applicable": na,
-        "notes": "All checks are bounded-exhaustive explorations of the real dasp code (no sampling); ./check is the driver (child process, wall/address-space caps, crash/hang/panic replay). Every check except C07 runs in a release build and again with debug assertions and overflow checks on (dbg parts, quick bounds); C15 in all four combinations; C11 also in the no_std build. known_findings.txt lists fixed defects and the two recorded findings (C07 graph.regrow-on-different-graph, C18 sinc.int-partial-sum-overflow); seeded/ holds 152 property-breaking changes (all detected by the quick check of their property), benign/ 58 behaviour-preserving ones (all quiet on the properties they preserve).",
+        "notes": "All checks are bounded-exhaustive explorations of the real dasp code (no sampling); ./check is the driver (child process, wall/address-space caps, crash/hang/panic replay). Every check except C07 runs in a release build and again with debug assertions and overflow checks on (dbg parts, quick bounds); C15 in all four combinations; C11 also in the no_std build. known_findings.txt lists fixed defects and the two recorded findings (C07 graph.regrow-on-different-graph, C18 sinc.int-partial-sum-overflow); seeded/ holds 153 property-breaking changes (all detected by the quick check of their property), benign/ 58 behaviour-preserving ones (all quiet on the properties they preserve).",
     }
     with open(os.path.join(ROOT, "MANIFEST.json"), "w") as f:
         json.dump(man, f, indent=1)
